@@ -19,7 +19,7 @@ import os
 import re
 import shutil
 from . import machine_corr as MC
-from .common import pmap, hexs, unhex, LEAN_DIR
+from .common import pmap, hexs, unhex, run_cmd, LEAN_DIR, GARDEN, NPROC
 
 LEAN_MODULES = ["GardenVerif.Props.C07"]
 RESUMES = 3
@@ -200,6 +200,51 @@ def run_session(ctx, d, idx, inputs, timeout=20):
     return rc, parse_responses(so or ""), pan
 
 
+def bulk_sessions(ctx, d, jobs, timeout=30):
+    """Run many reftest-json-session transcripts with few process spawns from Python (forking a
+    threaded Python with a preexec_fn per session costs far more than the 0.2 s session itself):
+    one shell loop per worker, each session under `timeout` and an address-space limit.
+    jobs: [(tag, [input, ...])] -> {tag: (rc, stdout, stderr)}, rc = -9999 on timeout."""
+    os.makedirs(d, exist_ok=True)
+    for tag, inputs in jobs:
+        with open(os.path.join(d, tag + ".jsonl"), "w") as f:
+            for i in inputs:
+                f.write(json.dumps({"method": "run", "input": i}) + "\n")
+    nw = max(1, min(NPROC, len(jobs)))
+    scripts = []
+    for w in range(nw):
+        tags = [t for k, (t, _) in enumerate(jobs) if k % nw == w]
+        sp = os.path.join(d, "worker%d.sh" % w)
+        with open(sp, "w") as f:
+            f.write("ulimit -v 3000000\nulimit -c 0\ncd '%s'\n" % d)
+            for t in tags:
+                f.write("timeout %d '%s' reftest-json-session %s.jsonl > %s.out 2> %s.err; echo $? > %s.rc\n" % (
+                    timeout, GARDEN, t, t, t, t))
+        scripts.append((sp, len(tags)))
+    pmap(lambda a: run_cmd(["sh", a[0]], timeout=60 + timeout * max(1, a[1]), mem_gb=None), scripts)
+    out = {}
+    for tag, _ in jobs:
+        def rd(ext):
+            try:
+                return open(os.path.join(d, tag + ext), errors="replace").read()
+            except OSError:
+                return ""
+        try:
+            rc = int(rd(".rc").strip())
+        except ValueError:
+            rc = -9999
+        out[tag] = (-9999 if rc == 124 else rc, rd(".out"), rd(".err"))
+    return out
+
+
+def session_result(rc, so, se):
+    pan = ""
+    m = re.search(r"panicked at ([^\n]*)\n([^\n]*)", se or "")
+    if m:
+        pan = m.group(1).strip() + " " + m.group(2).strip()
+    return rc, parse_responses(so or ""), pan
+
+
 def strip_exc(msg):
     return msg[len("Exception: "):] if msg and msg.startswith("Exception: ") else msg
 
@@ -241,11 +286,9 @@ def run(ctx):
     d = ctx.scratch("sess")
     os.makedirs(d, exist_ok=True)
 
-    def job(ix):
-        cls, site, src, frame = cases[ix]
-        return ix, run_session(ctx, d, ix, [src] + [":resume"] * RESUMES)
-    results = dict(pmap(job, list(range(len(cases)))))
-    # a loaded machine can push a 30 ms session over the timeout: re-run those alone, generously
+    raw = bulk_sessions(ctx, d, [("s%d" % ix, [c[2]] + [":resume"] * RESUMES) for ix, c in enumerate(cases)])
+    results = {ix: session_result(*raw["s%d" % ix]) for ix in range(len(cases))}
+    # a loaded machine can push a 0.2 s session over the timeout: re-run those alone, generously
     slow = [ix for ix, r in results.items() if r[0] == -9999]
     for ix in slow:
         results[ix] = run_session(ctx, d, ix, [cases[ix][2]] + [":resume"] * RESUMES, timeout=180)
@@ -310,7 +353,9 @@ def run(ctx):
                  "[receiver, arg_n .. arg_1]" % n, arm=n)
 
     # ---- correspondence (C): model `resume_run` on the real parser's tree
-    idxs = [ix for ix in impl_seq if not any(w in cases[ix][2] for w in ("import ", "method ", "assert", "Path{", "Dict[",
+    model_builtins = ("builtin/PreludePrint", "builtin/PreludePrintln", "builtin/PreludeStringRepr")
+    idxs = [ix for ix in impl_seq if (not cases[ix][1].startswith("builtin/") or cases[ix][1] in model_builtins)
+            and not any(w in cases[ix][2] for w in ("import ", "method ", "assert", "Path{", "Dict[",
                                                                           "+.", "-.", "*.", "/.", ": "))]
     srcs = [cases[ix][2] for ix in idxs]
     ast = ctx.garden_batch(["astx " + hexs(s) for s in srcs])
@@ -347,6 +392,9 @@ def run(ctx):
             iobs.append("panic")
         if any(o.startswith("err unclassified") for o in iobs):
             nunsup += 1
+            continue
+        if mobs and mobs[0].startswith("err no-such-variable") and iobs and not iobs[0].startswith("err no-such-variable"):
+            nunsup += 1   # a name the model's namespace does not contain (a built-in outside its fragment)
             continue
         ncmp += 1
         model_const = len(mobs) == RESUMES + 1 and len(set(mobs)) == 1
